@@ -1,3 +1,374 @@
 (* GroupingP.v — specification and proofs for Model/Grouping.v (C16). *)
 From Mokaverif Require Import Model.Base Model.Grouping.
 From Coq Require Import Lia Permutation.
+
+Section GroupingProofs.
+Variable P : Type.
+Variable peqb : P -> P -> bool.
+Hypothesis peqb_spec : forall a b, reflect (a = b) (peqb a b).
+
+Local Notation neqb := (gr_name_eqb P peqb).
+Local Notation memn := (gr_memn P peqb).
+Local Notation lookup := (gr_lookup P).
+Local Notation update := (gr_update P).
+Local Notation set_add := (gr_set_add P peqb).
+Local Notation set_remove := (gr_set_remove P peqb).
+Local Notation haskey := (gr_haskey P peqb).
+Local Notation pop := (gr_pop P peqb).
+Local Notation dict_set := (gr_dict_set P peqb).
+
+(* ------------------------------------------------------------------ basic reflection *)
+Lemma neqb_spec : forall a b, reflect (a = b) (neqb a b).
+Proof.
+  induction a as [|x a IH]; intros [|y b]; simpl; try (constructor; congruence).
+  destruct (peqb_spec x y) as [E|E]; simpl.
+  - destruct (IH b) as [E2|E2]; constructor; congruence.
+  - constructor; congruence.
+Qed.
+
+Lemma neqb_refl : forall a, neqb a a = true.
+Proof. intros a. destruct (neqb_spec a a); congruence. Qed.
+
+Lemma memn_spec : forall x l, memn x l = true <-> In x l.
+Proof.
+  intros x l. unfold gr_memn. rewrite existsb_exists. split.
+  - intros [y [Hy E]]. destruct (neqb_spec x y); congruence.
+  - intros H. exists x. split; [assumption|apply neqb_refl].
+Qed.
+
+Lemma memn_false : forall x l, memn x l = false <-> ~ In x l.
+Proof.
+  intros x l. rewrite <- memn_spec. destruct (memn x l); split; congruence.
+Qed.
+
+Lemma memp_spec : forall x l, gr_memp x l = true <-> In x l.
+Proof.
+  intros x l. unfold gr_memp. rewrite existsb_exists. split.
+  - intros [y [Hy E]]. apply Nat.eqb_eq in E. congruence.
+  - intros H. exists x. split; [assumption|apply Nat.eqb_refl].
+Qed.
+
+Lemma memp_false : forall x l, gr_memp x l = false <-> ~ In x l.
+Proof.
+  intros x l. rewrite <- memp_spec. destruct (gr_memp x l); split; congruence.
+Qed.
+
+Lemma dedup_in : forall x l, In x (gr_dedup l) <-> In x l.
+Proof.
+  intros x l. induction l as [|y l IH]; simpl; [tauto|].
+  destruct (gr_memp y l) eqn:E.
+  - rewrite IH. apply memp_spec in E. split; [tauto|]. intros [H|H]; congruence.
+  - simpl. rewrite IH. tauto.
+Qed.
+
+Lemma dedup_nodup : forall l, NoDup (gr_dedup l).
+Proof.
+  induction l as [|y l IH]; simpl; [constructor|].
+  destruct (gr_memp y l) eqn:E; [assumption|].
+  constructor; [|assumption]. rewrite dedup_in. apply memp_false. assumption.
+Qed.
+
+Lemma dedup_id : forall l, NoDup l -> gr_dedup l = l.
+Proof.
+  induction l as [|y l IH]; intros H; simpl; [reflexivity|].
+  inversion H as [|? ? Hn Hd]; subst.
+  apply memp_false in Hn. rewrite Hn. f_equal. apply IH. assumption.
+Qed.
+
+(* ------------------------------------------------------------------ the peptide dict *)
+Lemma lookup_update_same : forall k v pm, lookup k (update k v pm) = v.
+Proof.
+  intros k v pm. induction pm as [|[k' w] r IH]; simpl.
+  - rewrite Nat.eqb_refl. reflexivity.
+  - destruct (Nat.eqb k k') eqn:E; simpl; rewrite E; [reflexivity|assumption].
+Qed.
+
+Lemma lookup_update_other : forall k k' v pm, k <> k' -> lookup k' (update k v pm) = lookup k' pm.
+Proof.
+  intros k k' v pm Hne. induction pm as [|[k0 w] r IH]; simpl.
+  - destruct (Nat.eqb k' k) eqn:E; [apply Nat.eqb_eq in E; congruence|reflexivity].
+  - destruct (Nat.eqb k k0) eqn:E; simpl.
+    + apply Nat.eqb_eq in E. subst k0.
+      destruct (Nat.eqb k' k) eqn:E2; [apply Nat.eqb_eq in E2; congruence|reflexivity].
+    + destruct (Nat.eqb k' k0); [reflexivity|assumption].
+Qed.
+
+Lemma set_add_in : forall x y s, In y (set_add x s) <-> y = x \/ In y s.
+Proof.
+  intros x y s. unfold gr_set_add. destruct (memn x s) eqn:E.
+  - apply memn_spec in E. split; [tauto|]. intros [H|H]; congruence.
+  - rewrite in_app_iff. simpl. split; intros H; intuition congruence.
+Qed.
+
+Lemma set_add_nodup : forall x s, NoDup s -> NoDup (set_add x s).
+Proof.
+  intros x s H. unfold gr_set_add. destruct (memn x s) eqn:E; [assumption|].
+  apply memn_false in E.
+  apply NoDup_rev in H. rewrite <- (rev_involutive (s ++ [x])). apply NoDup_rev.
+  rewrite rev_app_distr. simpl. constructor; [|assumption].
+  rewrite <- in_rev. assumption.
+Qed.
+
+Lemma set_remove_in : forall x y s, In y (set_remove x s) <-> In y s /\ y <> x.
+Proof.
+  intros x y s. unfold gr_set_remove. rewrite filter_In.
+  destruct (neqb_spec x y) as [E|E]; simpl; split; intros H; intuition congruence.
+Qed.
+
+Lemma set_remove_nodup : forall x s, NoDup s -> NoDup (set_remove x s).
+Proof. intros x s H. unfold gr_set_remove. apply NoDup_filter. assumption. Qed.
+
+(* ------------------------------------------------------------------ the group dict *)
+Lemma haskey_spec : forall m g, haskey m g = true <-> exists S, In (m, S) g.
+Proof.
+  intros m g. unfold gr_haskey. rewrite existsb_exists. split.
+  - intros [[k v] [Hin E]]. simpl in E. destruct (neqb_spec m k); [subst; eauto|congruence].
+  - intros [S Hin]. exists (m, S). split; [assumption|apply neqb_refl].
+Qed.
+
+Lemma pop_some : forall m g S, In (m, S) g ->
+  exists S' g', pop m g = Some (S', g') /\ Permutation g ((m, S') :: g').
+Proof.
+  intros m g S. induction g as [|[k v] r IH]; intros Hin; [contradiction|].
+  simpl. destruct (neqb_spec m k) as [E|E].
+  - subst k. exists v, r. split; [reflexivity|apply Permutation_refl].
+  - destruct Hin as [Hin|Hin]; [congruence|].
+    destruct (IH Hin) as [S' [g' [Hp Hperm]]]. rewrite Hp.
+    exists S', ((k, v) :: g'). split; [reflexivity|].
+    eapply perm_trans; [apply perm_skip; exact Hperm|apply perm_swap].
+Qed.
+
+Lemma dict_set_fresh : forall k v g, haskey k g = false -> dict_set k v g = g ++ [(k, v)].
+Proof.
+  intros k v g. induction g as [|[k' w] r IH]; simpl; intros H; [reflexivity|].
+  unfold gr_haskey in H. simpl in H. apply orb_false_iff in H. destruct H as [H1 H2].
+  rewrite H1. f_equal. apply IH. exact H2.
+Qed.
+
+Lemma update_peps_ok : forall m p nw S pm,
+  NoDup S -> (forall pep, In pep S -> In m (lookup pep pm)) ->
+  exists pm', gr_update_peps P peqb m p nw S pm = Ok pm' /\
+    forall pep, lookup pep pm' =
+      if gr_memp pep S then set_add nw (set_remove [p] (set_remove m (lookup pep pm)))
+      else lookup pep pm.
+Proof.
+  intros m p nw S. induction S as [|pep0 r IH]; intros pm Hnd Hin.
+  - exists pm. split; [reflexivity|]. intros pep. reflexivity.
+  - inversion Hnd as [|? ? Hn0 Hndr]; subst.
+    simpl. assert (Hm : memn m (lookup pep0 pm) = true).
+    { apply memn_spec. apply Hin. left. reflexivity. }
+    rewrite Hm.
+    set (pm1 := update pep0 (set_add nw (set_remove [p] (set_remove m (lookup pep0 pm)))) pm).
+    destruct (IH pm1 Hndr) as [pm' [Hrun Hlk]].
+    { intros pep Hp. unfold pm1. rewrite lookup_update_other.
+      - apply Hin. right. assumption.
+      - intros E. subst. contradiction. }
+    exists pm'. split; [assumption|].
+    intros pep. rewrite Hlk. unfold gr_memp. simpl.
+    destruct (Nat.eqb pep pep0) eqn:E; simpl.
+    + apply Nat.eqb_eq in E. subst pep.
+      apply memp_false in Hn0. unfold gr_memp in Hn0. rewrite Hn0.
+      unfold pm1. apply lookup_update_same.
+    + assert (Hne : pep0 <> pep) by (intros E2; subst; rewrite Nat.eqb_refl in E; discriminate).
+      unfold pm1. rewrite (lookup_update_other _ _ _ _ Hne). reflexivity.
+Qed.
+
+(* ------------------------------------------------------------------ generic list facts *)
+Lemma nodup_map_inj : forall {A B} (f : A -> B) l a b,
+  NoDup (map f l) -> In a l -> In b l -> f a = f b -> a = b.
+Proof.
+  intros A B f l. induction l as [|x l IH]; intros a b Hnd Ha Hb E; [contradiction|].
+  simpl in Hnd. inversion Hnd as [|? ? Hn Hd]; subst.
+  destruct Ha as [Ha|Ha]; destruct Hb as [Hb|Hb]; subst.
+  - reflexivity.
+  - exfalso. apply Hn. rewrite E. apply in_map. assumption.
+  - exfalso. apply Hn. rewrite <- E. apply in_map. assumption.
+  - apply IH; assumption.
+Qed.
+
+Definition keyhd (e : list P * list nat) : option P := hd_error (fst e).
+
+(* ================================================================== invariants *)
+Section Inv.
+Variable L : list (P * list nat).
+Hypothesis L_names : NoDup (map fst L).
+Hypothesis L_peps : forall p peps, In (p, peps) L -> NoDup peps.
+
+Lemma L_fun : forall p a b, In (p, a) L -> In (p, b) L -> a = b.
+Proof.
+  intros p a b Ha Hb.
+  assert (E : (p, a) = (p, b)) by (eapply nodup_map_inj; eauto).
+  congruence.
+Qed.
+
+(* C16_invariant: the names recorded for a peptide are the current groups containing it, plus
+   the one-element names of the proteins that no group has absorbed for this peptide yet *)
+Definition pm_inv (g : gr_groups P) (pm : gr_pmap P) : Prop :=
+  forall pep x, In x (lookup pep pm) <->
+    (exists S, In (x, S) g /\ In pep S) \/
+    (exists p peps, In (p, peps) L /\ x = [p] /\ In pep peps /\
+                    forall n S, In (n, S) g -> In p n -> ~ In pep S).
+
+Definition pm_nodup (pm : gr_pmap P) : Prop := forall pep, NoDup (lookup pep pm).
+
+Record core (proc : P -> Prop) (g : gr_groups P) : Prop := {
+  c_founder : forall n S, In (n, S) g -> exists f ms, n = f :: ms /\ In (f, S) L;
+  c_heads : NoDup (map keyhd g);
+  c_members : forall n S x, In (n, S) g -> In x n ->
+                proc x /\ exists peps, In (x, peps) L /\ incl peps S;
+  c_anti : forall n S n' S', In (n, S) g -> In (n', S') g -> incl S S' -> n = n';
+  c_nodup : forall n S, In (n, S) g -> NoDup n }.
+
+Lemma core_key_fun : forall proc g n S S', core proc g -> In (n, S) g -> In (n, S') g -> S = S'.
+Proof.
+  intros proc g n S S' Hc H1 H2.
+  assert (E : (n, S) = (n, S')).
+  { eapply nodup_map_inj; [apply (c_heads _ _ Hc)|assumption|assumption|reflexivity]. }
+  congruence.
+Qed.
+
+Definition no_founder (p : P) (g : gr_groups P) : Prop :=
+  forall n S, In (n, S) g -> hd_error n <> Some p.
+
+Lemma nodup_snoc : forall {A} (l : list A) x, NoDup l -> ~ In x l -> NoDup (l ++ [x]).
+Proof.
+  intros A l x. induction l as [|y l IH]; intros Hnd Hn; simpl.
+  - constructor; [intros []|constructor].
+  - inversion Hnd as [|? ? Hy Hd]; subst. constructor.
+    + rewrite in_app_iff. simpl. intros [H|[H|[]]]; [contradiction|].
+      subst. apply Hn. left. reflexivity.
+    + apply IH; [assumption|]. intros H. apply Hn. right. assumption.
+Qed.
+
+(* one iteration of "for match in matches" *)
+Lemma rename_ok : forall proc p peps_p g pm m S,
+  In (p, peps_p) L -> core proc g -> proc p -> no_founder p g ->
+  pm_inv g pm -> pm_nodup pm -> In (m, S) g -> incl peps_p S -> ~ In p m ->
+  exists g0 pm',
+    gr_rename P peqb p (g, pm) m = Ok (g0 ++ [(m ++ [p], S)], pm') /\
+    Permutation g ((m, S) :: g0) /\
+    core proc (g0 ++ [(m ++ [p], S)]) /\ no_founder p (g0 ++ [(m ++ [p], S)]) /\
+    pm_inv (g0 ++ [(m ++ [p], S)]) pm' /\ pm_nodup pm'.
+Proof.
+  intros proc p peps_p g pm m S HpL Hc Hproc Hnf Hinv Hnd HinS Hincl Hpm.
+  destruct (pop_some m g S HinS) as [S' [g0 [Hpop Hperm]]].
+  assert (ES : S' = S).
+  { eapply core_key_fun; [exact Hc| |exact HinS].
+    eapply Permutation_in; [apply Permutation_sym; exact Hperm|left; reflexivity]. }
+  subst S'.
+  assert (Hg : forall n S0, In (n, S0) g <-> (n = m /\ S0 = S) \/ In (n, S0) g0).
+  { intros n S0. split.
+    - intros H. apply (Permutation_in _ Hperm) in H. destruct H as [H|H]; [left; split; congruence|right; assumption].
+    - intros [[E1 E2]|H]; [subst; assumption|].
+      eapply Permutation_in; [apply Permutation_sym; exact Hperm|right; assumption]. }
+  destruct (c_founder _ _ Hc m S HinS) as [f [ms [Em HfL]]].
+  assert (Hhd : NoDup (keyhd (m, S) :: map keyhd g0)).
+  { change (NoDup (map keyhd ((m, S) :: g0))). eapply Permutation_NoDup; [|apply (c_heads _ _ Hc)].
+    apply Permutation_map. exact Hperm. }
+  assert (Hm_notin : forall n S0, In (n, S0) g0 -> hd_error n <> Some f).
+  { intros n S0 Hin E. inversion Hhd as [|? ? Hn _]; subst. apply Hn.
+    unfold keyhd at 1. simpl. rewrite <- E. change (hd_error n) with (keyhd (n, S0)).
+    apply in_map. assumption. }
+  set (nw := m ++ [p]).
+  assert (Hfresh : haskey nw g0 = false).
+  { destruct (haskey nw g0) eqn:E; [|reflexivity]. apply haskey_spec in E. destruct E as [S1 H1].
+    exfalso. apply (Hm_notin nw S1 H1). unfold nw. subst m. reflexivity. }
+  assert (HSnd : NoDup S) by (eapply L_peps; exact HfL).
+  destruct (update_peps_ok m p nw S pm HSnd) as [pm' [Hrun Hlk]].
+  { intros pep Hpep. apply Hinv. left. exists S. split; assumption. }
+  exists g0, pm'.
+  assert (HinG' : forall n S0, In (n, S0) (g0 ++ [(nw, S)]) <-> In (n, S0) g0 \/ (n = nw /\ S0 = S)).
+  { intros n S0. rewrite in_app_iff. simpl. split.
+    - intros [H|[H|[]]]; [left; assumption|right; split; congruence].
+    - intros [H|[E1 E2]]; [left; assumption|right; left; congruence]. }
+  split.
+  { unfold gr_rename. simpl fst. simpl snd. rewrite Hpop. fold nw. rewrite Hrun.
+    rewrite dict_set_fresh by assumption. reflexivity. }
+  split; [exact Hperm|].
+  split.
+  { constructor.
+    - intros n S0 Hin. apply HinG' in Hin. destruct Hin as [Hin|[E1 E2]].
+      + apply (c_founder _ _ Hc). apply Hg. right. assumption.
+      + subst n S0. exists f, (ms ++ [p]). split; [unfold nw; subst m; reflexivity|assumption].
+    - rewrite map_app. simpl. eapply Permutation_NoDup; [|exact Hhd].
+      replace (keyhd (nw, S)) with (keyhd (m, S)) by (unfold keyhd, nw; subst m; reflexivity).
+      apply Permutation_cons_append.
+    - intros n S0 x Hin Hx. apply HinG' in Hin. destruct Hin as [Hin|[E1 E2]].
+      + apply (c_members _ _ Hc n S0 x); [apply Hg; right; assumption|assumption].
+      + subst n S0. unfold nw in Hx. apply in_app_iff in Hx. destruct Hx as [Hx|[Hx|[]]].
+        * apply (c_members _ _ Hc m S x); assumption.
+        * subst x. split; [assumption|]. exists peps_p. split; assumption.
+    - intros n S0 n' S0' Hin Hin' Hsub. apply HinG' in Hin. apply HinG' in Hin'.
+      destruct Hin as [Hin|[E1 E2]]; destruct Hin' as [Hin'|[E1' E2']].
+      + apply (c_anti _ _ Hc n S0 n' S0'); [apply Hg; right; assumption|apply Hg; right; assumption|assumption].
+      + subst n' S0'. exfalso.
+        assert (E : n = m).
+        { apply (c_anti _ _ Hc n S0 m S); [apply Hg; right; assumption|assumption|assumption]. }
+        subst n. apply (Hm_notin m S0 Hin). subst m. reflexivity.
+      + subst n S0. exfalso.
+        assert (E : m = n').
+        { apply (c_anti _ _ Hc m S n' S0'); [assumption|apply Hg; right; assumption|assumption]. }
+        subst n'. apply (Hm_notin m S0' Hin'). subst m. reflexivity.
+      + congruence.
+    - intros n S0 Hin. apply HinG' in Hin. destruct Hin as [Hin|[E1 E2]].
+      + apply (c_nodup _ _ Hc n S0). apply Hg. right. assumption.
+      + subst n. unfold nw. apply nodup_snoc; [apply (c_nodup _ _ Hc m S); assumption|assumption]. }
+  split.
+  { intros n S0 Hin. apply HinG' in Hin. destruct Hin as [Hin|[E1 E2]].
+    - apply (Hnf n S0). apply Hg. right. assumption.
+    - subst n. unfold nw. intros E. apply (Hnf m S HinS). subst m. exact E. }
+  split.
+  2:{ intros pep. rewrite Hlk. destruct (gr_memp pep S); [|apply Hnd].
+      apply set_add_nodup. apply set_remove_nodup. apply set_remove_nodup. apply Hnd. }
+  intros pep x. rewrite Hlk. destruct (gr_memp pep S) eqn:EmS.
+  - apply memp_spec in EmS. rewrite set_add_in, set_remove_in, set_remove_in. rewrite (Hinv pep x). split.
+    + intros [Hx | [[Hold Hxm] Hxp]].
+      * left. exists S. split; [apply HinG'; right; auto|assumption].
+      * destruct Hold as [[S0 [HinS0 Hpep]] | [p0 [peps0 [HL [Hx [Hpep Hcl]]]]]].
+        -- left. exists S0. split; [|assumption]. apply HinG'. left. apply Hg in HinS0.
+           destruct HinS0 as [[E _]|H]; [congruence|assumption].
+        -- right. exists p0, peps0. repeat split; try assumption.
+           intros n S1 Hin1 Hp0n. apply HinG' in Hin1. destruct Hin1 as [Hin1|[En E1]].
+           ++ apply (Hcl n S1); [apply Hg; right; assumption|assumption].
+           ++ subst n S1. unfold nw in Hp0n. apply in_app_iff in Hp0n. destruct Hp0n as [Hp0m|[E|[]]].
+              ** apply (Hcl m S); [assumption|assumption].
+              ** subst p0. congruence.
+    + intros [[S0 [HinS0 Hpep]] | [p0 [peps0 [HL [Hx [Hpep Hcl]]]]]].
+      * apply HinG' in HinS0. destruct HinS0 as [Hin0|[En E1]].
+        -- right. split; [split|].
+           ++ left. exists S0. split; [apply Hg; right; assumption|assumption].
+           ++ intros E. subst x. apply (Hm_notin m S0 Hin0). subst m. reflexivity.
+           ++ intros E. subst x. apply (Hnf [p] S0); [apply Hg; right; assumption|reflexivity].
+        -- left. assumption.
+      * right.
+        assert (Hp0 : ~ In p0 nw).
+        { intros Hcn. apply (Hcl nw S); [apply HinG'; right; auto|assumption|assumption]. }
+        assert (Hp0m : ~ In p0 m) by (intros H; apply Hp0; unfold nw; apply in_app_iff; left; assumption).
+        assert (Hp0p : p0 <> p) by (intros H; apply Hp0; unfold nw; apply in_app_iff; right; left; congruence).
+        split; [split|].
+        -- right. exists p0, peps0. repeat split; try assumption.
+           intros n S1 Hin1 Hp0n. apply Hg in Hin1. destruct Hin1 as [[En E1]|Hin1].
+           ++ subst n. contradiction.
+           ++ apply (Hcl n S1); [apply HinG'; left; assumption|assumption].
+        -- intros E. subst x. apply Hp0m. rewrite <- E. left. reflexivity.
+        -- intros E. subst x. congruence.
+  - apply memp_false in EmS. rewrite (Hinv pep x). split.
+    + intros [[S0 [HinS0 Hpep]] | [p0 [peps0 [HL [Hx [Hpep Hcl]]]]]].
+      * left. exists S0. split; [|assumption]. apply HinG'. left. apply Hg in HinS0.
+        destruct HinS0 as [[En E1]|H]; [subst; contradiction|assumption].
+      * right. exists p0, peps0. repeat split; try assumption.
+        intros n S1 Hin1 Hp0n. apply HinG' in Hin1. destruct Hin1 as [Hin1|[En E1]].
+        -- apply (Hcl n S1); [apply Hg; right; assumption|assumption].
+        -- subst S1. assumption.
+    + intros [[S0 [HinS0 Hpep]] | [p0 [peps0 [HL [Hx [Hpep Hcl]]]]]].
+      * left. exists S0. split; [|assumption]. apply HinG' in HinS0.
+        destruct HinS0 as [H|[En E1]]; [apply Hg; right; assumption|subst; contradiction].
+      * right. exists p0, peps0. repeat split; try assumption.
+        intros n S1 Hin1 Hp0n. apply Hg in Hin1. destruct Hin1 as [[En E1]|Hin1].
+        -- subst S1. assumption.
+        -- apply (Hcl n S1); [apply HinG'; left; assumption|assumption].
+Qed.
+
+End Inv.
+
+End GroupingProofs.
